@@ -26,10 +26,23 @@ import (
 	"verif/symgo/load"
 )
 
-const (
-	verifRoot = "/verif"
-	repoRoot  = "/repo"
+const verifRoot = "/verif"
+
+// repoRoot is the tree under test and outRoot the place evidence and replay
+// files go. The registered commands use the defaults; tools/seed_eval.sh points
+// them at a scratch copy (VF_REPO, VF_OUT) so that seeded changes are evaluated
+// without touching /repo or the committed evidence.
+var (
+	repoRoot = envOr("VF_REPO", "/repo")
+	outRoot  = envOr("VF_OUT", verifRoot)
 )
+
+func envOr(k, d string) string {
+	if v := os.Getenv(k); v != "" {
+		return v
+	}
+	return d
+}
 
 type knownFinding struct {
 	Property string `json:"property"`
@@ -354,7 +367,7 @@ func cmdCheck(args []string) int {
 	seenKey := map[string]bool{}
 	confirmedKey := map[string]bool{}
 	triesKey := map[string]int{}
-	os.MkdirAll(filepath.Join(verifRoot, "replays"), 0o755)
+	os.MkdirAll(filepath.Join(outRoot, "replays"), 0o755)
 	for _, v := range violations {
 		h := findHarness(hs, v.Harness)
 		key := v.Harness + "|" + v.Kind + "|" + v.Msg + "|" + v.Site
@@ -363,7 +376,7 @@ func cmdCheck(args []string) int {
 		}
 		seenKey[key+"|"+v.Case] = true
 		triesKey[key]++
-		file := filepath.Join(verifRoot, "replays", fmt.Sprintf("%s-%s-%d.json", prop, v.Harness, len(seenKey)))
+		file := filepath.Join(outRoot, "replays", fmt.Sprintf("%s-%s-%d.json", prop, v.Harness, len(seenKey)))
 		var args []uint64
 		for _, r := range results {
 			if r.Job.Name == v.Harness && r.Job.Case == v.Case {
@@ -448,7 +461,7 @@ func cmdCheck(args []string) int {
 					if i < len(outs) {
 						got = outs[i]
 					}
-					file := filepath.Join(verifRoot, "replays", fmt.Sprintf("%s-%s-diff%d.json", prop, e.Harness, i))
+					file := filepath.Join(outRoot, "replays", fmt.Sprintf("%s-%s-diff%d.json", prop, e.Harness, i))
 					b, _ := json.MarshalIndent(e, "", " ")
 					os.WriteFile(file, b, 0o644)
 					inconcl = append(inconcl, fmt.Sprintf("ENGINE-MISMATCH %s[%s]: a path the engine completed without violation does not pass natively on its own model: %s; inputs=%s", e.Harness, e.Case, got, file))
@@ -554,9 +567,9 @@ func cmdCheck(args []string) int {
 			"repo_head":                     gitHead(),
 		},
 	}
-	os.MkdirAll(filepath.Join(verifRoot, "evidence"), 0o755)
+	os.MkdirAll(filepath.Join(outRoot, "evidence"), 0o755)
 	b, _ := json.MarshalIndent(ev, "", " ")
-	os.WriteFile(filepath.Join(verifRoot, "evidence", prop+".json"), b, 0o644)
+	os.WriteFile(filepath.Join(outRoot, "evidence", prop+".json"), b, 0o644)
 	fmt.Printf("%s tier=%s harness-cases=%d paths=%d queries=%d (sat %d unsat %d unknown %d) solver=%.1fs wall=%.1fs exit=%d\n",
 		prop, *tier, len(jobs), totalPaths, stats.Sat+stats.Unsat+stats.Unknown, stats.Sat, stats.Unsat, stats.Unknown, stats.SolverTime.Seconds(), wall, exit)
 	if *debug {
@@ -572,7 +585,7 @@ func findJob(jobs []*exec.Job, j *exec.Job) *exec.Job { return j }
 // nativeBatch runs a list of replay entries of one package through a single
 // go test invocation and returns the VF-REPLAY[i] lines in order.
 func nativeBatch(set *load.Set, pkgDir string, entries []replayFile) []string {
-	tmp := filepath.Join(verifRoot, "replays", "tmp", "batch_"+strings.ReplaceAll(pkgDir, "/", "_")+"_"+strconv.Itoa(os.Getpid()))
+	tmp := filepath.Join(outRoot, "replays", "tmp", "batch_"+strings.ReplaceAll(pkgDir, "/", "_")+"_"+strconv.Itoa(os.Getpid()))
 	os.MkdirAll(tmp, 0o755)
 	defer os.RemoveAll(tmp)
 	listPath := filepath.Join(tmp, "list.json")
@@ -689,7 +702,7 @@ func writeReplay(file, prop string, v *exec.Violation, args []uint64, native str
 // nativeReplay runs the harness natively on the counterexample's inputs
 // through go test -overlay; ok reports whether the violation reproduced.
 func nativeReplay(set *load.Set, h *load.Harness, file string) (string, bool) {
-	tmp := filepath.Join(verifRoot, "replays", "tmp", strings.ReplaceAll(h.PkgDir, "/", "_")+"_"+strconv.Itoa(os.Getpid()))
+	tmp := filepath.Join(outRoot, "replays", "tmp", strings.ReplaceAll(h.PkgDir, "/", "_")+"_"+strconv.Itoa(os.Getpid()))
 	os.MkdirAll(tmp, 0o755)
 	defer os.RemoveAll(tmp)
 	s := runNative(set, h, tmp, "VF_REPLAY="+file)
